@@ -51,6 +51,20 @@ class Loop:
         self.lst, self.acc, self.elem, self.body, self.init = lst, acc, elem, body, init
 
 
+class While:
+    """`while cond { state = body }` : state pattern, cond (pure Bool text in terms of the state), body computation"""
+
+    def __init__(self, st, cond, body, init):
+        self.st, self.cond, self.body, self.init = st, cond, body, init
+
+
+class LoopRet:
+    """`for elem in list { .. return r .. ; acc = .. }` : the body yields `Sum.inl r` (returned) or `Sum.inr acc`"""
+
+    def __init__(self, lst, acc, elem, body, init):
+        self.lst, self.acc, self.elem, self.body, self.init = lst, acc, elem, body, init
+
+
 class FindRet:
     def __init__(self, lst, elem, body):
         self.lst, self.elem, self.body = lst, elem, body
@@ -72,7 +86,7 @@ def impure(c):
         return impure(c.a) or impure(c.b)
     if isinstance(c, Match):
         return any(impure(a) for _, a in c.arms)
-    if isinstance(c, (Loop, FindRet, Lam)):
+    if isinstance(c, (Loop, FindRet, Lam, While, LoopRet)):
         return impure(c.body)
     raise TypeError(c)
 
@@ -96,6 +110,10 @@ def pp(c, ind=2):
         return "(match %s with%s)" % (c.scrut, arms)
     if isinstance(c, Loop):
         return "(List.foldl (fun %s %s => %s) %s %s)" % (c.acc, c.elem, pp(c.body, ind + 2), c.init, c.lst)
+    if isinstance(c, LoopRet):
+        return "(Rt.forRetP %s %s (fun %s %s => %s))" % (c.lst, c.init, c.acc, c.elem, pp(c.body, ind + 2))
+    if isinstance(c, While):
+        return "(Rt.whileP Rt.loopFuel %s (fun %s => %s) (fun %s => %s))" % (c.init, c.st, c.cond, c.st, pp(c.body, ind + 2))
     if isinstance(c, FindRet):
         return "(List.findSome? (fun %s => %s) %s)" % (c.elem, pp(c.body, ind + 2), c.lst)
     if isinstance(c, Lam):
@@ -126,6 +144,10 @@ def pm(c, ind=2):
         return "(match %s with%s)" % (c.scrut, arms)
     if isinstance(c, Loop):
         return "(Rt.forM %s %s (fun %s %s => %s))" % (c.lst, c.init, c.acc, c.elem, pm(c.body, ind + 2))
+    if isinstance(c, LoopRet):
+        return "(Rt.forRetM %s %s (fun %s %s => %s))" % (c.lst, c.init, c.acc, c.elem, pm(c.body, ind + 2))
+    if isinstance(c, While):
+        return "(Rt.whileM Rt.loopFuel %s (fun %s => %s) (fun %s => %s))" % (c.init, c.st, c.cond, c.st, pm(c.body, ind + 2))
     if isinstance(c, FindRet):
         return "(Rt.findRet %s (fun %s => %s))" % (c.lst, c.elem, pm(c.body, ind + 2))
     if isinstance(c, Lam):
@@ -156,6 +178,10 @@ def simplify(c):
         return Match(c.scrut, [(p, simplify(a)) for p, a in c.arms])
     if isinstance(c, Loop):
         return Loop(c.lst, c.acc, c.elem, simplify(c.body), c.init)
+    if isinstance(c, LoopRet):
+        return LoopRet(c.lst, c.acc, c.elem, simplify(c.body), c.init)
+    if isinstance(c, While):
+        return While(c.st, c.cond, simplify(c.body), c.init)
     if isinstance(c, FindRet):
         return FindRet(c.lst, c.elem, simplify(c.body))
     if isinstance(c, Lam):
